@@ -34,16 +34,26 @@ def _gene_events(args):
     rnd = random.Random(seed)
     root = "".join(rnd.choice("ACGT") for _ in range(40))
     ev = []
+    from inscripta.biocantor.io.parser import seq_chunk_to_parent
+
     for (idxs, flags) in combos:
         ch_desc, txs = [], []
+        # a third of the genes live on a sequence chunk that may miss some of their isoforms (or some CDSs) entirely:
+        # span, merged blocks, coding flag and primary choice are statements about the CHROMOSOME structure
+        chunk, cwin = None, (-1, -1)
+        if rnd.random() < 0.35:
+            ws = rnd.randrange(0, 30)
+            cwin = (ws, len(root)) if rnd.random() < 0.5 else (0, ws + 6)
+            chunk = seq_chunk_to_parent(root[cwin[0]:cwin[1]], "chr", cwin[0], cwin[1])
         for n, (i, fl) in enumerate(zip(idxs, flags)):
             bl, st, cacb = POOL[i]
             cds = cds_blocks(bl, st, *cacb) if cacb else None
-            txs.append(mk_tx(bl, st, cds, root, is_primary_tx={1: True, 0: False, -1: None}[fl],
-                             transcript_id="t%d" % n))
+            txs.append(mk_tx(bl, st, cds, root if chunk is None else None, parent=chunk,
+                             is_primary_tx={1: True, 0: False, -1: None}[fl], transcript_id="t%d" % n))
             ch_desc.append([[bl, st], [cds, st] if cds else [[], "e"], fl == 1])
         holder = []
-        ctor = E.outcome(lambda: holder.append(GeneInterval(txs, gene_type=Biotype.protein_coding)) or 1)
+        ctor = E.outcome(lambda: holder.append(GeneInterval(txs, gene_type=Biotype.protein_coding,
+                                                            parent_or_seq_chunk_parent=chunk)) or 1)
         if not holder:
             ev.append(["gene", ch_desc, ctor] + [0] * 12)
             continue
@@ -58,7 +68,8 @@ def _gene_events(args):
                    E.outcome(lambda: E.loc(g.get_merged_cds().chromosome_location)),
                    _sv(g.get_primary_transcript_sequence), [_sv(t.get_spliced_sequence) for t in txs],
                    _sv(g.get_primary_cds_sequence), [_sv(t.get_cds_sequence) for t in txs],
-                   _sv(g.get_primary_protein), [_sv(t.get_protein_sequence) for t in txs]])
+                   _sv(g.get_primary_protein), [_sv(t.get_protein_sequence) for t in txs],
+                   cwin[0], cwin[1]])
         # feature collections from the same structures (non-coding view)
         feats, fdesc = [], []
         for n, (i, fl) in enumerate(zip(idxs, flags)):
